@@ -33,6 +33,8 @@ var c11Emails = []c11Email{
 	{"bob@corp.test", "listed-domain", false},
 	{"bob@CORP.Test", "listed-domain-case-varied", false},
 	{"bob@evilcorp.test", "domain-lookalike-suffix", false},
+	{"bob@corpxtest", "domain-with-its-dot-replaced", false},
+	{"bob@corp-test", "domain-with-its-dot-replaced-by-a-dash", false},
 	{"bob@sub.corp.test", "subdomain-of-listed", false},
 	{"bob@corp.test.evil.test", "domain-as-prefix", false},
 	{"carol@other.test", "unlisted", false},
@@ -293,7 +295,7 @@ func init() {
 	fw.Register(&fw.Check{
 		ID:    "C11",
 		Level: "exploration",
-		Rule: "full product on a proxy built like cmd/sso-proxy (validators exactly as proxy.New builds them): rule sets = every combination of {absent, listed value, lone *, * with another value} for addresses, domains and groups (63 policies) x 16 emails (exact, case-varied, prefix/suffix look-alikes, plus-tagged and dotted variants of a listed address, look-alike domain, sub-domain, domain as prefix, unlisted, two @, empty local part, non-ASCII local part / domain) x directory {in listed group, in none, error 500, unavailable 503, rate-limited 429, only in groups whose names extend a listed name, only in groups whose names are prefixes of a listed name}; " +
+		Rule: "full product on a proxy built like cmd/sso-proxy (validators exactly as proxy.New builds them): rule sets = every combination of {absent, listed value, lone *, * with another value} for addresses, domains and groups (63 policies) x 18 emails (the listed domain with its dot replaced, exact, case-varied, prefix/suffix look-alikes, plus-tagged and dotted variants of a listed address, look-alike domain, sub-domain, domain as prefix, unlisted, two @, empty local part, non-ASCII local part / domain) x directory {in listed group, in none, error 500, unavailable 503, rate-limited 429, only in groups whose names extend a listed name, only in groups whose names are prefixes of a listed name}; " +
 			"thorough adds rule variants {listed value in upper case, another value + the listed one} and emails {empty, leading/trailing space, case-varied sub-domain, the bare listed domain, a listed address used as local part}; " +
 			"each case logs in through the real callback, sends a request while no check is due, one after the validity TTL and one after the access token ran out and was refreshed (the scripted authenticator honours only the latest token it issued); oracle = the documented any-of semantics and the same verdict at all three stages (emails whose reading the statement leaves open: consistency only); " +
 			"distinct_nontrivial = distinct (rule set, email class, directory, verdict triple) among cases admitted at login",
